@@ -164,4 +164,42 @@ theorem payload_bytes_decode_emitted (ext : Ext) (body : Nat → Bytes) (magic :
   rw [heq]
   exact (Spec.messageSet ext.crc).law _ hvalid
 
+/-- **Gzip payload, down to the bytes, no size condition.**  WHENEVER `create_message_set(reqs, CODEC_GZIP, magic)`
+    returns for the sends of a payload `p` (so `_encode_message_set` of the inner messages and the compressor both
+    returned), and the decompressor undoes the compressor (`hinv`; both are externals): the returned set is ONE
+    wrapper whose value `gz` decompresses to bytes that parse under the grammar's message-set decoder to exactly
+    one entry per message of the payload, in order, with the message's key and value; and WHENEVER
+    `_encode_message_set` of the returned set returns bytes, they parse under the grammar to that one wrapper entry
+    (offset 0, format `magic`, gzip codec in the attributes, null key, value `gz`, checksum verified). -/
+theorem payload_bytes_decode_gzip_emitted (ext : Ext) (body : Nat → Bytes) (magic : Int) (hm : magic = 0 ∨ magic = 1)
+    (rs : List Req) (p : Payload) (hp : p.msgs = rs.flatMap (·.wire)) (ms : List Message)
+    (h : createMessageSet ext (rs.map (sendArg body)) codecGzip magic = .ok ms)
+    (hinv : ∀ b z, ext.gzip b = .ok z → ext.gunzip (some z) = .ok b) :
+    ∃ gz inner entries,
+      ext.gunzip (some gz) = .ok inner
+      ∧ (Spec.messageSet ext.crc).dec inner = some entries
+      ∧ entries = p.msgs.map (brokerEntry ext.nowMs body magic)
+      ∧ entries.map (fun e => (e.2.key, e.2.value)) = p.msgs.map (kv body)
+      ∧ (∀ bytes, encodeMessageSet ext ms none magic = .ok bytes →
+            (Spec.messageSet ext.crc).dec bytes = some [wrapperEntry ext.nowMs magic gz]) := by
+  have hvalid : (Spec.messageSet ext.crc).valid (p.msgs.map (brokerEntry ext.nowMs body magic)) = true := by
+    have h' := h
+    rw [WireCompose.createMessageSet_gzip ext body magic rs p hp] at h'
+    cases henc : encodeMessageSet ext (p.msgs.map (wireMsg ext body magic)) with
+    | error e => simp [createGzipMessage, henc] at h'
+    | ok enc => exact msgset_valid_of_encode ext 0 _ _ enc 0 rfl henc (specEntries_wire ext body magic p.msgs)
+  obtain ⟨w, gz, rfl, ha, hk, hv, hmg, hts, hgz⟩ := Afkak.Wire.createMessageSet_gzip ext _ magic ms h
+  rw [plainEntries_sendArg, ← hp] at hgz
+  refine ⟨gz, _, _, hinv _ _ hgz, (Spec.messageSet ext.crc).law _ hvalid, rfl, brokerEntry_kv _ _ _ _, ?_⟩
+  intro bytes hbytes
+  have hse : specEntries ext.nowMs [w] = some [wrapperEntry ext.nowMs magic gz] := by
+    obtain ⟨wm, wa, wk, wv, wt⟩ := w
+    simp only at ha hk hv hmg hts
+    subst ha hk hv hmg hts
+    rcases hm with rfl | rfl <;> rfl
+  have houter := msgset_valid_of_encode ext magic _ _ bytes 0 rfl hbytes hse
+  have heq := msgset_bytes ext magic hm _ _ bytes 0 rfl hbytes hse
+  rw [heq]
+  exact (Spec.messageSet ext.crc).law _ houter
+
 end Afkak.Producer.WireBytes
